@@ -12,7 +12,7 @@ from .common import Driver
 THEOREM_MODULES = ["PygacModel.Theorems.C17"]
 RULE = ("ordered TLE files (1..400 element sets, duplicates, gaps of days to years, epochs on both sides of the 1950 "
         "pivot), start times before / inside / exactly between (+-1 ms) / after the epochs, thresholds at the edge +-1 ms; "
-        "real get_tle_lines() vs Lean model and vs an exact-arithmetic oracle. A case = (file, start time, threshold); "
+        "real get_tle_lines() (asked two or three times on the same reader) vs Lean model and vs an exact-arithmetic oracle. A case = (file, start time, threshold); "
         "non-trivial = more than one element set in the file; distinct by (file hash, start time, threshold)")
 
 EPOCH = datetime.datetime(1970, 1, 1)
@@ -75,13 +75,18 @@ def real_select(ctx, path_dir, fields, sdate_ms, thresh):
     g = _r.Random(sdate_ms)
     others = [sdate_ms + g.choice([500, 1000, -86400000 * 400, 86400000 * 300, -3600000, 7200000]) for _ in range(g.choice([0, 0, 1, 3]))]
     r._times_as_np_datetime64 = np.array([sdate_ms] + others, dtype="datetime64[ms]")
-    try:
-        l1, l2 = r.get_tle_lines()
-    except NoTLEData:
-        return "notle", None, r
-    except IndexError:
-        return "indexerror", None, r
-    return "chosen", (l1, l2), r
+    def query():
+        try:
+            l1, l2 = r.get_tle_lines()
+        except NoTLEData:
+            return "notle", None
+        except IndexError:
+            return "indexerror", None
+        return "chosen", (l1, l2)
+    kind, pair = query()
+    # asking again (as the angle computation does after the clock-drift correction asked) must give the same answer
+    r._verif_repeats = [query() for _ in range(g.choice([1, 1, 2]))]
+    return kind, pair, r
 
 
 def check(ctx, fields, sdate_ms, thresh, drv, tag):
@@ -93,6 +98,12 @@ def check(ctx, fields, sdate_ms, thresh, drv, tag):
     kind, pair, r = real_select(ctx, d, fields, sdate_ms, thresh)
     payload = {"fields": fields if len(fields) <= 60 else fields[:60], "n_sets": len(fields), "sdate_ms": sdate_ms, "thresh_days": thresh, "tag": tag}
     ex = [exact_ms(f) for f in fields]
+    for k2, p2 in r._verif_repeats:
+        if (k2, p2) != (kind, pair):
+            ctx.violation("start %d, limit %s days: the first query gave %s, a repeated query on the same reader gave %s%s" % (
+                sdate_ms, thresh, kind, k2, " (a set is handed out after the pass was reported as having no TLE data)"
+                if kind == "notle" and k2 == "chosen" else ""), payload, cls="repeat-differs")
+            break
     # ---- oracle (exact arithmetic)
     if fields:
         dist = [abs(sdate_ms - e) for e in ex]
